@@ -177,6 +177,16 @@ Theorem C09_issuers_stay_retrievable : forall (sha : list Byte.byte -> list Byte
 Proof. exact store_persistent. Qed.
 Print Assumptions C09_issuers_stay_retrievable.
 
+(* a submission that is deduplicated against a pending / in-sequencing entry (hit = true) has run
+   the issuer loop first: all of ITS chain certificates are retrievable too, and the store does not
+   depend on the outcome of the lookup *)
+Theorem C09_deduplicated_submission_stores_its_chain : forall (sha : list Byte.byte -> list Byte.byte) l hit st st' src,
+  issuer_inv sha st -> add_leaf sha l hit st = (st', src) -> src <> SrcIssuer ->
+  forall iss f u, In (iss, (f, u)) l ->
+  exists c, lookup_fp (sha iss) (i_store st') = Some c /\ sha c = sha iss.
+Proof. exact add_leaf_issuers_retrievable. Qed.
+Print Assumptions C09_deduplicated_submission_stores_its_chain.
+
 (* non-vacuity: a concrete oracle instance meets the contract, and both the acceptance
    condition and its negation occur *)
 Example C09_contract_satisfiable : validate_contract toy_validate.
